@@ -73,6 +73,12 @@ fn check_text(text: &str) -> Result<(), String> {
         if e.line_col != LineColLocation::Pos(lc(text, p)) || e.location != InputLocation::Pos(p) { return Err(format!("Error::new_from_pos at {} in {:?}: line_col {:?} location {:?}", p, text, e.line_col, e.location)); }
         let (l, c) = lc(text, p);
         check_render(text, &format!("error at offset {}", p), &e, l, c, true)?;
+        // the displayed line: the line containing the offset, line terminators made visible when the error sits on one, dropped otherwise
+        let on_break = text[p..].starts_with('\n') || text[p..].starts_with('\r');
+        let shown = if on_break { want.replace('\r', "␍").replace('\n', "␊") } else { want.replace(&['\r', '\n'][..], "") };
+        if e.line() != shown { return Err(format!("Error::new_from_pos at {} in {:?}: line() = {:?}, the line containing the offset shows as {:?}", p, text, e.line(), shown)); }
+        let r = format!("{}", e); let row = r.split('\n').nth(2).unwrap_or("");
+        if row != format!("{} | {}", l, shown) { return Err(format!("error at offset {} in {:?}: source row {:?}, expected {:?}", p, text, row, format!("{} | {}", l, shown))); }
     }
     for a in 0..=n + 1 { for b in 0..=n + 1 {
         let sp = Span::new(text, a, b);
@@ -132,6 +138,13 @@ fn check_text(text: &str) -> Result<(), String> {
         if e.line_col != LineColLocation::Span(lc(text, a), want_end) || e.location != InputLocation::Span((a, b)) { return Err(format!("Error::new_from_span({},{}) in {:?}: line_col {:?}, expected {:?}", a, b, text, e.line_col, (lc(text, a), want_end))); }
         let (l, c) = lc(text, a);
         check_render(text, &format!("error over span {}..{}", a, b), &e, l, c, false)?;
+        // the displayed start line: the first line the span touches ("" when it touches none), terminators visible when the span
+        // starts or ends with one, dropped otherwise
+        let first = ref_lines(text, a, b).first().map(|&(x, y)| &text[x..y]).unwrap_or("");
+        let st = &text[a..b];
+        let vis = matches!(st.chars().next(), Some('\n') | Some('\r')) || matches!(st.chars().last(), Some('\n') | Some('\r'));
+        let shown = if vis { first.replace('\r', "␍").replace('\n', "␊") } else { first.replace(&['\r', '\n'][..], "") };
+        if e.line() != shown { return Err(format!("Error::new_from_span({},{}) in {:?}: line() = {:?}, the first line of the span shows as {:?}", a, b, text, e.line(), shown)); }
     } }
     Ok(())
 }
